@@ -93,7 +93,7 @@ Definition wf_trim (c : trim_case) : bool :=
 
 Definition in_domain (k : case) : bool :=
   match k with
-  | KTrim c => wf_trim c && guard_trim (q_go (tr_s c)) (q_go (tr_e c)) (mk_rows (tr_rows c))
+  | KTrim c => wf_trim c
   | KTime _ => false
   | KQuery c => (q_mode c =? 0)%nat && in_domain_C11 (mk_bucket c) (q_s c) (q_e c)
   end.
